@@ -47,6 +47,12 @@ def perturbed(ctx, t, bi, n):
         ty = info.split("|")[-1]
         other = {"int": '"p"', "float": "7", "str": "3", "bool": "1"}.get(ty, "1")
         out.append(("slot %s of type %s -> %s" % (tg.info_dict(info)["where"], ty, other), tg.render(t, plant_e=(i, other))))
+    # the neighbourhood of the known holes: generic helpers instantiated at types their bodies cannot handle
+    ss = [(i, info) for i, info in tg.slots(t, "S") if tg.info_dict(info)["where"] != "global" and tg.info_dict(info).get("pure") != "1"]
+    for stmt in ("zgcmp(true, false)", 'zglocal("a")', 'zgtup("a", true)', 'zgadd(1, "a")'):
+        if ss:
+            i, info = r.choice(ss)
+            out.append(("generic helper instantiated badly: " + stmt, tg.render(t, plant_s=(i, [stmt]))))
     return out
 
 
@@ -66,6 +72,8 @@ def classify_run(o):
 
 
 def classify_violation(src):
+    if "zgcmp(true" in src or 'zglocal("a")' in src:
+        return "C02-generic-component-constraint"
     return None
 
 
